@@ -11,6 +11,15 @@ def run(rep, tier):
     path, n_all, n = kspipe.gen_descs(rep, wd, "Core/Gen_C03", "Core/Gen_C03_quick" if quick else "Core/Gen_C03_thorough", "c03", per_op=40 if quick else 600)
     events, bad = kspipe.run_and_validate(rep, wd, path, "c03", shards=12 if quick else 14)
     nb = kspipe.report(rep, events, bad, {"sem", "key"}, "c03")
+    # matrix-level members of the family (Ggsw.tla): GGSW key-switch / automorphism (column 0 + row expansion through the
+    # tensor key), automorphism of automorphism keys, GGSW rotation
+    gpath, gn_all, gn = kspipe.gen_descs(rep, wd, "Core/Gen_Ggsw", "Core/Gen_Ggsw_c03_quick" if quick else "Core/Gen_Ggsw_c03_thorough", "c03g", per_op=24 if quick else 400)
+    gevents, gbad = kspipe.run_and_validate(rep, wd, gpath, "c03g", shards=12 if quick else 14, sub="ggsw", trace_module="Core/GgswTrace")
+    nb += kspipe.report(rep, gevents, gbad, {"sem", "key"}, "c03g")
+    bad = bad + [(i + len(events), k) for i, k in gbad]
+    events = events + gevents
+    n_all += gn_all
+    n += gn
     vac = {i for i, k in bad if k == "vacuous"}
     ops = {}
     for i, e in enumerate(events):
@@ -26,10 +35,10 @@ def run(rep, tier):
     rep.rule = ("%d of the %d behaviours enumerated by TLC from Gen_C03 (per-operation stratified, seeded): keygen -> encrypt -> operation on 4 back-ends x 2 fills, N=8; "
                 "KsTrace recomputes from raw limbs and the clear secrets (a) the key rows' phases (KeyOK), (b) for the plain key-switch the EXACT gadget product from the logged key rows "
                 "(key precision <= 16 bits), (c) for every operation the decryption phase of the result against Image_op(phase of the inputs) within the worst-case gadget bound "
-                "(KsFamily.tla); behaviours whose bound exceeds 1/16 of the torus are counted separately; distinct = behaviours" % (n, n_all))
+                "(KsFamily.tla); GGSW key-switch / automorphism: column 0 of every row by the GLWE relation, every other column against s_j * phase(column 0) (row expansion through the tensor key, Ggsw.tla), and the result as a valid GGSW of the (mapped) plaintext; automorphism of automorphism keys: a valid key for the product of the Galois elements; GGSW rotation limb-exact; behaviours whose bound exceeds 1/16 of the torus are counted separately; distinct = behaviours" % (n, n_all))
     for e in events[:: max(1, len(events) // 3)][:3]:
-        rep.sample({k: e[k] for k in e if k not in ("outs", "key", "scr", "a", "sk_in", "sk_out")})
+        rep.sample({k: e[k] for k in e if k not in ("outs", "key", "tsk", "scr", "a", "sk_in", "sk_out")})
     log("[C03] %d behaviours, %d rejected, %d with vacuous bound" % (len(events), nb, len(vac)))
     rep.assumptions += ["N = 8; radices 3 and 4; precisions <= 24 bits (native-integer phase arithmetic in TLC)",
-                        "GGSW key-switch and automorphism-key automorphism are not driven (GGLWE key-switch is, cell by cell)",
+                        "GGSW key-switch / automorphism and automorphism-key automorphism: bound level (and the exact row-expansion identity for keys <= 16 bits); N = 8",
                         "noise is checked against the worst-case bound implied by the configured truncation of the Gaussian, not against a variance estimate"]
